@@ -127,6 +127,10 @@ type hsServer struct {
 	RBuf, WBuf   int
 	Trailing     []byte
 	FlateParams  wsflate.Parameters
+	// EditResult (HTTPUpgrader): the application edits the Handshake it got
+	// back in place (it is its own now); the *http.Request it still holds
+	// must not change with it.
+	EditResult bool
 }
 
 // The last entry is kept out of the draw: a subprotocol that is not an RFC
@@ -509,7 +513,47 @@ func runServerConn(r *eng.Run, s hsServer, p net.Conn, sent func() []byte, writa
 			kv := strings.SplitN(strings.TrimSuffix(s.Header, "\r\n"), ": ", 2)
 			u.Header = http.Header{kv[0]: []string{kv[1]}}
 		}
+		var reqKeep []string
+		if s.EditResult {
+			for _, k := range []string{"Sec-Websocket-Extensions", "Sec-Websocket-Protocol"} {
+				for _, v := range req.Header[k] {
+					reqKeep = append(reqKeep, k+": "+strings.Clone(v))
+				}
+			}
+		}
 		_, _, hs, o.Err = u.Upgrade(req, &stubRW{conn: p, br: br, hdr: http.Header{}})
+		if s.EditResult && o.Err == nil {
+			// What the rest of the run compares is a copy taken now.
+			live := hs.Extensions
+			hs.Extensions = nil
+			for _, x := range live {
+				hs.Extensions = append(hs.Extensions, x.Copy(make([]byte, x.Size())))
+			}
+			for _, x := range live {
+				for i := range x.Name {
+					x.Name[i] ^= 0x20
+				}
+				x.Parameters.ForEach(func(k, v []byte) bool {
+					for i := range k {
+						k[i] ^= 0x20
+					}
+					for i := range v {
+						v[i] ^= 0x20
+					}
+					return true
+				})
+			}
+			var now []string
+			for _, k := range []string{"Sec-Websocket-Extensions", "Sec-Websocket-Protocol"} {
+				for _, v := range req.Header[k] {
+					now = append(now, k+": "+v)
+				}
+			}
+			if !sameStrings(now, reqKeep) {
+				r.FailProp("C17", "result_aliases_request", "HTTPUpgrader: editing the returned Handshake.Extensions in place changed the request's own header values: now %q, were %q (the result is a view of the request's memory, not a copy)", now, reqKeep)
+			}
+			r.Probe("http_upgrader_result_edited_in_place")
+		}
 	}
 	o.Protocol, o.Exts = hs.Protocol, hs.Extensions
 	o.Head = append([]byte(nil), sent()...)
